@@ -258,6 +258,9 @@ def mutate(rnd, plan, pid):
     elif k < 0.3:
         p["maxbs"] = max(1, max(f["bs"] for f in p["frames"]) - 1)                     # block larger than advertised
         names.append("maxbs-small")
+    elif k < 0.34:
+        p["total_hi"] = rnd.choice([256, 512, 257, 4095])                              # the declared total is the real one + k * 2^32 (+ ...)
+        names.append("total-beyond-2^32")
     p["class"] = "+".join(sorted(set(names)))
     return p
 
@@ -290,6 +293,13 @@ def directed_malformed(start_id):
                 edge_s = [(1 << (bps - 1)) - 1, -(1 << (bps - 1))]
                 out.append({"id": k, "channels": 1, "bps": bps, "rate": 44100, "bpscode": "hdr", "selfcheck": False, "class": "pred-overflow",
                             "frames": [{"bs": 8, "subs": [sub]}], "pcm": [[edge_s[i % 2] for i in range(8)]]})
+    # a declared total of the real length plus a multiple of 2^32 samples (the field has 36 bits): the file ends long before its total,
+    # which is an error like any other truncation, at whatever frame boundary the data stop
+    for hi in (256, 512, 3840, 257, 1):
+        for nfr, bs in ((1, 16), (3, 16), (2, 20), (4, 192)):
+            k += 1
+            out.append({"id": k, "channels": 1, "bps": 16, "rate": 44100, "bpscode": "hdr", "selfcheck": False, "class": "total-beyond-2^32", "total_hi": hi,
+                        "frames": [{"bs": bs, "subs": [{"type": "verbatim"}]} for _ in range(nfr)], "pcm": [[(i * 37) % 200 - 100 for i in range(nfr * bs)]]})
     # well-formed, self-describing frames under a STREAMINFO that says something else: a decorrelated (2-channel) frame in a stream of
     # 1 or 3..8 channels, an independent 2-channel frame there, a different depth, a different rate
     pcm2 = [[(i * 37) % 200 - 100 for i in range(16)], [(i * 11) % 90 - 45 for i in range(16)]]
